@@ -1533,6 +1533,24 @@ FUNCS = [
          verbatim=[('let mut dir_list = format!("{remote_root}\\0");', "let mut dir_list : List Char := remote_root ++ ['\\x00']"),
                    ('for dir in dirs { if write!(dir_list, "{}/{}\\0", remote_root, dir.display()).is_err() { eprintln!( "Warning: failed to format directory path: {}", dir.display() ); } }',
                     "for dir in dirs do\n  dir_list := dir_list ++ (remote_root ++ '/' :: dir ++ ['\\x00'])")]),
+    # ---- dir_sync.rs: the counters the parallel transfers share (AtomicU64 fetch_add as addition: a run has fewer than 2^64 files)
+    dict(group="oneway", file="src/bin/copia/dir_sync.rs", name="record_ok", sig=None,
+         lean="def recordOkGen (p : Nat × Nat × Nat) (size : Nat) : Nat × Nat × Nat := Id.run do\n"
+              "  -- world: (bytes_transferred, files_done, files_failed); the periodic progress line is terminal output\n"
+              "  let mut bytes := p.1\n  let mut done := p.2.1\n  let failed := p.2.2",
+         epilogue=["return (bytes, done, failed)"], calls={}, paths={},
+         verbatim=[("self.bytes_transferred.fetch_add(size, Ordering::Relaxed);", "bytes := bytes + size"),
+                   ("let n = self.files_done.fetch_add(1, Ordering::Relaxed) + 1;", "done := done + 1"),
+                   ('if n % 50 == 0 || n == self.total_files { let transferred = self.bytes_transferred.load(Ordering::Relaxed); '
+                    'eprintln!( "  [{n}/{}] {} transferred", self.total_files, format_bytes(transferred) ); }', "")]),
+    dict(group="oneway", file="src/bin/copia/dir_sync.rs", name="record_err", sig=None,
+         lean="def recordErrGen (p : Nat × Nat × Nat) : Nat × Nat × Nat := Id.run do\n"
+              "  let bytes := p.1\n  let done := p.2.1\n  let mut failed := p.2.2",
+         epilogue=["return (bytes, done, failed)"], calls={}, paths={},
+         verbatim=[("self.files_failed.fetch_add(1, Ordering::Relaxed);", "failed := failed + 1")]),
+    dict(group="oneway", file="src/bin/copia/dir_sync.rs", name="failed", sig=None,
+         lean="def failedGen (p : Nat × Nat × Nat) : Nat := Id.run do", calls={}, paths={},
+         verbatim=[("self.files_failed.load(Ordering::Relaxed)", "return p.2.2")]),
     # ---- incremental.rs / main.rs: from the number of failed transfers to the process's exit status
     dict(group="oneway", file="src/bin/copia/incremental.rs", name="report", sig=None,
          lean="def reportGen (failed : Nat) : Bool := Id.run do\n"
